@@ -97,7 +97,7 @@ Not decided: the folding of FROM set expressions (unions/intersections) and seri
         }
     };
     let consts = const_resolver(m);
-    let ev = Evaluator { consts: &consts, call_hook: &crate::eval::no_hook };
+    let ev = Evaluator { consts: &consts, call_hook: &crate::eval::no_hook, inline: None };
     let variants = m.find_enum("CharacterStringType").map(|e| e.variants.clone()).unwrap_or_default();
     ctx.floor("C15/CharacterStringType-variants", variants.len(), 11);
     let km: Vec<String> = reference["known_multiplier"].as_array().cloned().unwrap_or_default().iter().filter_map(|v| v.as_str().map(|s| s.to_string())).collect();
@@ -237,7 +237,7 @@ Not decided: the folding of FROM set expressions (unions/intersections) and seri
                     }
                     None
                 };
-                let ev2 = Evaluator { consts: &consts, call_hook: &hook };
+                let ev2 = Evaluator { consts: &consts, call_hook: &hook, inline: None };
                 let s = |x: &str| Val::some(Val::Ctor("String".into(), vec![Val::Str(x.into())], BTreeMap::new()));
                 for (lo, hi, want) in [(s("lo"), s("hi"), (3, 7)), (Val::none(), s("hi"), (0, 7)), (s("lo"), Val::none(), (3, 9)), (Val::none(), Val::none(), (0, 9))] {
                     let key = format!("min={} max={}", lo.show(), hi.show());
